@@ -4,7 +4,9 @@ cd /verif && python3-vt - <<'PY'
 import json, jsonschema, glob
 jsonschema.validate(json.load(open('MANIFEST.json')), json.load(open('/root/.vp/MANIFEST.schema.json')))
 s = json.load(open('/root/.vp/EVIDENCE.schema.json'))
-for f in sorted(glob.glob('evidence/*.json')):
-    jsonschema.validate(json.load(open(f)), s)
-print('manifest + %d evidence files valid' % len(glob.glob('evidence/*.json')))
+m = json.load(open('MANIFEST.json'))
+n = 0
+for c in m['checks']:
+    jsonschema.validate(json.load(open(c['evidence_file'])), s); n += 1
+print('manifest + %d evidence files valid' % n)
 PY
